@@ -99,6 +99,8 @@ CtPrimCommit(w) == ScTuple(<<CtHash, ScU(w), ScSlice(CtPrimSigned(w))>>)
 CtPrimJust(w) == ScTuple(<<ScU(8), CtPrimCommit(w), ScSlice(CtHeader)>>)
 CtPrimSignedMsg(w) == ScTuple(<<ScEnum("Message", << [i |-> 0, t |-> CtPrimVote(w)], [i |-> 1, t |-> CtPrimVote(w)], [i |-> 2, t |-> CtPrimVote(w)] >>),
                                 ScU(64), ScU(32)>>)
+(* warp sync proof (sc-consensus-grandpa warp_proof.rs): Vec<(header, justification)> and "is finished" *)
+CtWarpProof(w) == ScTuple(<<ScSlice(ScTuple(<<CtHeader, CtPrimJust(w)>>)), ScBool>>)
 (* ---- consensus digests (dot/types/consensus_digest.go) ------------------------------------*)
 CtAuthority == ScTuple(<<ScU(32), ScU(8)>>)
 CtUnit == ScTuple(<<>>)
@@ -117,7 +119,7 @@ CtType(name) == CASE name = "header" -> CtHeader
                   [] name \in GossipNames -> CtGrandpaMsg
                   [] name = "gcommitj" -> CtCommit [] name = "gjust" -> CtJustification
                   [] name = "primjust" -> CtPrimJust(4) [] name = "primjust64" -> CtPrimJust(8)
-                  [] name = "primsignedmsg" -> CtPrimSignedMsg(4)
+                  [] name = "primsignedmsg" -> CtPrimSignedMsg(4) [] name = "warpproof" -> CtWarpProof(4)
                   [] name = "babecons" -> CtBabeCons [] name = "grandpacons" -> CtGrandpaCons [] name = "announce" -> CtAnnounce [] name = "handshake" -> CtHandshake
                   [] name = "body" -> CtBody [] name = "txmsg" -> CtTxMsg [] name = "babepre" -> CtBabePre
                   [] name = "vote" -> CtVote [] name = "signedvote" -> CtSignedVote [] name = "digestitem" -> CtDigestItem
@@ -176,9 +178,14 @@ GossipVals(name) ==
     [] name = "gcatchupresp" -> << [i |-> 4, v |-> <<R0, R0, <<>>, <<>>, HA, N0>>], [i |-> 4, v |-> <<R1, R2, <<SVoteB>>, <<SVoteA, SVoteC>>, HB, N1>>],
                                    [i |-> 4, v |-> <<R2, R1, <<SVoteA, SVoteB>>, <<SVoteC>>, HC, N2>>] >>
 PrimSV(sv, w) == IF w = 4 THEN sv ELSE <<<<sv[1][1], W8(sv[1][2])>>, sv[2], sv[3]>>
-PrimJustVals(w) == << <<R0, <<HA, IF w = 4 THEN N0 ELSE W8(N0), <<>>>>, <<>>>>,
-                      <<R1, <<HB, IF w = 4 THEN N1 ELSE W8(N1), <<PrimSV(SVoteB, w)>>>>, <<PlainHeaders[1]>>>>,
-                      <<R2, <<HC, IF w = 4 THEN N2 ELSE R2, <<PrimSV(SVoteA, w), PrimSV(SVoteC, w)>>>>, <<PlainHeaders[2], PlainHeaders[1]>>>> >>
+(* top: the block number of the third commit (the 8-byte instantiation also gets a number above 2^32) *)
+PrimJustValsX(w, top) == << <<R0, <<HA, IF w = 4 THEN N0 ELSE W8(N0), <<>>>>, <<>>>>,
+                            <<R1, <<HB, IF w = 4 THEN N1 ELSE W8(N1), <<PrimSV(SVoteB, w)>>>>, <<PlainHeaders[1]>>>>,
+                            <<R2, <<HC, top, <<PrimSV(SVoteA, w), PrimSV(SVoteC, w)>>>>, <<PlainHeaders[2], PlainHeaders[1]>>>> >>
+PrimJustVals(w) == PrimJustValsX(w, IF w = 4 THEN N2 ELSE R2)
+PrimJustSame(w) == PrimJustValsX(w, IF w = 4 THEN N2 ELSE W8(N2))    \* the same numbers in both widths
+WarpProofVals(w) == << << <<>>, FALSE >>, << << <<HeaderVals[14], PrimJustSame(w)[2]>> >>, TRUE >>,
+                       << << <<HeaderVals[18], PrimJustSame(w)[3]>>, <<HeaderVals[14], PrimJustSame(w)[1]>> >>, FALSE >> >>
 BabeConsVals == << [i |-> 1, v |-> << <<>>, HA >>], [i |-> 1, v |-> <<AuthsA, HB>>], [i |-> 1, v |-> <<AuthsB, HC>>],
                    [i |-> 2, v |-> N0], [i |-> 2, v |-> N1], [i |-> 2, v |-> N2],
                    [i |-> 3, v |-> [i |-> 1, v |-> <<R0, R1, [i |-> 0, v |-> <<>>]>>]], [i |-> 3, v |-> [i |-> 1, v |-> <<R1, <<4, 0, 0, 0, 0, 0, 0, 0>>, [i |-> 1, v |-> <<>>]>>]],
@@ -269,6 +276,7 @@ CtVals(name) ==
     [] name = "primjust" -> PrimJustVals(4) [] name = "primjust64" -> PrimJustVals(8)
     [] name = "primsignedmsg" -> << <<[i |-> 0, v |-> VoteA], SigA, HA>>, <<[i |-> 1, v |-> VoteB], SigB, HC>>, <<[i |-> 2, v |-> VoteC], SigC, HB>> >>
     [] name = "babecons" -> BabeConsVals [] name = "grandpacons" -> GrandpaConsVals
+    [] name = "warpproof" -> WarpProofVals(4)
     [] name = "blockrequest" -> BlockRequestVals [] name = "blockresponse" -> BlockResponseVals
     [] name = "announce" -> [j \in 1..Len(HeaderVals) |-> HeaderVals[j] \o <<j % 2 = 0>>]
     [] name = "handshake" -> << <<<<1>>, Rep(4, 0), HA, HB>>, <<<<4>>, <<1, 2, 3, 4>>, HB, HC>>, <<<<2>>, Rep(4, 255), HC, HA>>, <<<<9>>, <<0, 1, 0, 0>>, HB, HB>> >>
@@ -332,9 +340,14 @@ CtDecCases(name, i) ==
 CtAsItem(name, v) == IF name = "babecons" THEN ScEnc(CtDigestItem, [i |-> 4, v |-> <<BABE, ScEnc(CtBabeCons, v)>>])
                      ELSE IF name = "grandpacons" THEN ScEnc(CtDigestItem, [i |-> 4, v |-> <<FRNK, ScEnc(CtGrandpaCons, v)>>])
                      ELSE <<>>
+(* the same warp proof with 8-byte block numbers: NOT the specified layout (Polkadot block numbers are u32); emitted *)
+(* only so that the harness can name a disagreement that is exactly this                                              *)
+CtAlt(o) == IF o.ty = "warpproof" /\ \E i \in 1..Len(WarpProofVals(4)) : WarpProofVals(4)[i] = o.v
+            THEN ScEnc(CtWarpProof(8), WarpProofVals(8)[CHOOSE i \in 1..Len(WarpProofVals(4)) : WarpProofVals(4)[i] = o.v])
+            ELSE <<>>
 CtResult(o) == IF o.op = "enc"
                THEN [enc |-> IF o.ty \in PbNames THEN CtPbEnc(o.ty, o.v) ELSE ScEnc(CtType(o.ty), o.v),
-                     hash |-> IF o.ty = "header" THEN CtHeaderHash(o.v) ELSE <<>>, item |-> CtAsItem(o.ty, o.v)]
+                     hash |-> IF o.ty = "header" THEN CtHeaderHash(o.v) ELSE <<>>, item |-> CtAsItem(o.ty, o.v), alt |-> CtAlt(o)]
                ELSE IF o.ty \in PbNames THEN CtPbDec(o.ty, o.b) ELSE ScDec(CtType(o.ty), o.b)
 CtStep(o) == /\ hist' = Append(hist, [o |-> o, res |-> CtResult(o)])
              /\ UNCHANGED <<done, part>>
